@@ -89,3 +89,21 @@ def run_docs(docs):
         else:
             orphans.append((name, doc))
     return runs, orphans
+
+
+def lost_uncacheable(ex):
+    """Mechanism classifier: did a pause/suspension cancel a 'monitor' command in mid-flight (the command is uncacheable,
+    so it is neither completed nor replayed)? -> 'monitor' or None."""
+    last = None
+    for i, e in enumerate(ex.log):
+        if e[0] == "msg":
+            last = (i, e[1])
+        elif e[0] == "state" and e[1] in ("pausing", "suspending") and last is not None:
+            j, m = last
+            if m.command == "monitor":
+                subscribed = any(x[0] == "dev" and x[2] == "subscribe" and x[1] == getattr(m.obj, "name", None)
+                                 for x in ex.log[j:i])
+                if not subscribed:
+                    return "monitor"
+            last = None
+    return None
